@@ -95,6 +95,10 @@ def build_ra(arr):
                'flat-list-lengths-list': lambda: list(L)}[ctor]()
     if ctor == 'flat-list-lengths-list':
         data = data.tolist()
+    elif kw == 'strided-data':      # flat data handed over as a non-contiguous view, not copied
+        base = np.zeros((2 * len(data),) + data.shape[1:], dtype=data.dtype)
+        base[::2] = data
+        return ra.RaggedArray(base[::2], lengths=lengths, copy=False)
     if kw == 'keywords':
         return ra.RaggedArray(array=data, lengths=lengths)
     return ra.RaggedArray(data, lengths=lengths, **extra)
@@ -116,7 +120,10 @@ def py_index(idx, mask_ra=None):
     if t == 'list':
         return tuple(idx['v']) if idx.get('c') == 'tuple' else list(idx['v'])
     if t == 'arr':
-        return np.array(idx['v'], dtype=IDX_DT[idx.get('dt', 'int64')])
+        dt = IDX_DT[idx.get('dt', 'int64')]
+        if idx.get('view'):      # a reversed, non-contiguous view with the same values
+            return np.array(list(idx['v'])[::-1] + [0], dtype=dt)[-2::-1] if len(idx['v']) else np.array([], dtype=dt)
+        return np.array(idx['v'], dtype=dt)
     if t == 'boolrows':
         return np.array(idx['v'], dtype=bool)
     if t == 'tuple':
@@ -405,6 +412,8 @@ def rand_part(rng, L, in_tuple=True):
             p['dt'] = ['int32', 'int16', 'intp'][int(rng.integers(0, 3))]
         elif w < 0.7 and all(x >= 0 for x in p['v']):
             p['dt'] = 'uint8'
+        if rng.random() < 0.2:
+            p['view'] = True
     elif in_tuple and rng.random() < 0.25:
         p['c'] = 'tuple'          # a tuple as a component of the 2-D index
     return p
@@ -463,8 +472,8 @@ def rand_array(rng):
         dtype = ['bool', 'int8', 'float32', 'object'][int(rng.integers(0, 4))]
     kw = 'none'
     if rng.random() < 0.2:
-        kw = ['nocheck', 'copy-false', 'keywords'][int(rng.integers(0, 3))]
-        if kw == 'keywords' and not ctor.startswith('flat-l'):
+        kw = ['nocheck', 'copy-false', 'keywords', 'strided-data'][int(rng.integers(0, 4))]
+        if kw in ('keywords', 'strided-data') and not ctor.startswith('flat-l'):
             kw = 'nocheck'
     arr = {'lengths': lengths, 'width': 2 if rng.random() < 0.3 else 0, 'dtype': dtype, 'ctor': ctor}
     if n == 1 and arr['width'] == 0 and rng.random() < 0.3 and ctor.startswith('flat'):
@@ -653,7 +662,7 @@ def strip(idx):
         return {'t': 'tuple', 'r': strip(idx['r']), 'c': strip(idx['c'])}
     if idx['t'] == 'boolrows':
         return {'t': 'arr', 'v': [i for i, b in enumerate(idx['v']) if b]}
-    return {k: v for k, v in idx.items() if k not in ('np', 'dt', 'c', 'nd')}
+    return {k: v for k, v in idx.items() if k not in ('np', 'dt', 'c', 'nd', 'view')}
 
 
 def probe_repaired(ctx):
@@ -813,6 +822,8 @@ def _part_tags(p):
     out = []
     if p['t'] == 'arr':
         out.append('index-ndarray-' + p.get('dt', 'int64'))
+        if p.get('view'):
+            out.append('index-ndarray-reversed-view')
     if p['t'] == 'int' and p.get('np'):
         out.append('index-scalar-' + ('int64' if p['np'] is True else p['np']))
     if p['t'] == 'list' and p.get('c') == 'tuple':
@@ -954,11 +965,16 @@ def run(ctx):
             batch = []
     run_batch(ctx, batch)
     # size boundaries
+    import logging
+    ralog = logging.getLogger('enspara.ra.ra')
+    lvl = ralog.level
+    ralog.setLevel(logging.ERROR)      # "error checking is turned off ..." for > 20000 rows is expected here
     for arr, cases, use_model, tag in big_families(rng, ctx.thorough):
         impl = Impl(arr)
         resp = ctx.driver([model_request(arr, op, idx) for op, idx in cases]) if use_model else [None] * len(cases)
         for (op, idx), r in zip(cases, resp):
             judge(ctx, impl, op, idx, r, extra_tags=('size:' + tag,))
+    ralog.setLevel(lvl)
     # exhaustive small scope
     maxtot = ctx.n(3, 6)
     variants = [(w, d, c) for w in (0, 2) for d in ('int', 'float') for c in CTORS]
